@@ -39,7 +39,7 @@ SCHEMA_RULE = ('histories of 2..11 operations on a fresh ledger (all features on
                'non-trivial = history with >= 3 successful operations')
 PROPS['C29'] = dict(
     target='Props/C29',
-    theorems=['C29_rejected_no_effect', 'C29_strict_version_required', 'C29_unknown_version_rejected', 'C29_strict_chart_enforced', 'C29_strict_template_required',
+    theorems=['C29_rejected_no_effect', 'C29_rejection_is_4xx_no_effect', 'C29_strict_version_required', 'C29_unknown_version_rejected', 'C29_strict_chart_enforced', 'C29_strict_template_required',
               'C29_audit_partial_unspecified', 'C29_audit_partial_chart_ignored', 'C29_audit_template_optional', 'C29_audit_template_resolution', 'C29_defaults', 'C29_audit_refuted_unknown_version'],
     ties=[dict(name='TIE-D schemahist', vh='schemahist', model='schemahist', n=dict(quick=220, thorough=5000), kinds=['C29'], case_head='shist'),
           dict(name='TIE-H schemahist http', vh='schemahist', model='schemahisth', n=dict(quick=150, thorough=3000), args=dict(all=['-via', 'http']), kinds=['C29'], case_head='shisth'),
